@@ -6,13 +6,22 @@ from common import sh2
 LEVEL = "proof"
 MANIFEST = {
     "technique": "Coq proof over a hand-written Gallina model of the bits package + differential correspondence (extracted OCaml vs Go)",
-    "level_text": "Theorems (coq/c13/C13Theorems.v) for all byte strings and all write/read op sequences: the writer state machine equals "
-                  "the one-shot escape spec, escape output has no forbidden triple, every 00 00 03 is an inserted escape and every "
-                  "inserted byte is required, unescape inverts escape, the reader returns the written values with counters in the "
-                  "escaped stream. The model is tied to /repo on every run by running it (extracted) against the real bits package "
-                  "on exhaustive small byte strings and random op sequences.",
+    "level_text": "Theorems (coq/c13/C13Theorems.v), for all byte strings and all write/read op sequences (no length bound): the "
+                  "EBSP writer state machine equals the one-shot escape spec, escape output has no forbidden triple, every 00 00 03 is "
+                  "an inserted escape and every inserted byte is required, unescape inverts escape; fixed-width (<= 32 bit, value fits), "
+                  "flag, ue (< 2^32) and se values written with the EBSP writer + rbsp_trailing_bits are read back identically, "
+                  "MoreRbspData is then false without moving and ReadRbspTrailingBits accepts the trailing bits (and rejects a leading 0 or "
+                  "a second 1); counters report positions in the escaped stream; Writer / FixedSliceWriter.WriteBits+FlushBits round-trip "
+                  "through Reader; FixedSliceWriter never exceeds its capacity, its bit methods write nothing after the first error and "
+                  "equal the plain Writer when there is room; the byte-level Write* methods and ByteWriter emit big-endian encodings, "
+                  "ByteWriter cut exactly at the underlying writer's limit with the error set exactly then. "
+                  "Only explored (correspondence + search on the real code, not proved): ue values 2^32..2^48, Reader.ReadSigned, "
+                  "reads of width 0, behaviour after a read error. The model is tied to /repo on every run by running it "
+                  "(extracted) against the real bits package on exhaustive small byte strings and random op sequences.",
     "level_note": "Trusted: Coq kernel, extraction (ExtrOcamlBasic), the OCaml/Go glue, and the correspondence being only as good as "
-                  "its generated inputs. io.Writer/io.Reader failures are not modelled.",
+                  "its generated inputs. io.Reader failures other than EOF are not modelled; the only failing io.Writer modelled is one "
+                  "that accepts a fixed number of bytes (under ByteWriter; EBSPWriter/Writer over a failing io.Writer are not modelled). "
+                  "FixedSliceWriter.WriteString, Reader.ReadRemainingBytes and the slice readers are not modelled.",
 }
 
 
@@ -28,11 +37,13 @@ def build(ctx):
 
 def run(ctx):
     ctx.cov["trusted_base"] = common.TRUSTED_BASE_COMMON + [
-        "model: coq/c13/C13Model.v is a hand transcription of bits/ebspwriter.go, bits/ebspreader.go, "
-        "bits/writer.go, bits/reader.go, FixedSliceWriter.WriteBits/FlushBits (io errors not modelled)",
+        "model: coq/c13/C13Model.v + C13ModelExt.v are a hand transcription of bits/ebspwriter.go, bits/ebspreader.go, "
+        "bits/writer.go, bits/reader.go, bits/fixedslicewriter.go (all methods but WriteString), bits/bytewriter.go",
+        "harness/c13/ext.go limitedWriter (the io.Writer under ByteWriter: accepts N bytes, then fails after a partial write)",
         "spec: coq/c13/C13Spec.v escape/unescape/forbidden (H.264 7.4.1 rule, written by hand)",
     ]
-    ctx.assumptions += ["the underlying io.Writer never fails; the io.Reader is a bytes.Reader (EOF is the only error)",
+    ctx.assumptions += ["the io.Writer under EBSPWriter/Writer never fails; under ByteWriter it accepts a fixed number of bytes; "
+                        "the io.Reader is a bytes.Reader (EOF is the only error)",
                         "values are Go uint (64 bit); widths 0..32 are exercised"]
     # 1 harness from the current /repo tree + extracted model
     exe, model = build(ctx)
@@ -85,8 +96,13 @@ def run(ctx):
                       "model/implementation disagree on %d cases" % len(mism), no_input=True)
     ctx.proof_violation_if_broken(pr, "c13 search: %d evaluations, no failing input" % ctx.notes.get("search_evaluations", 0))
     ctx.cov["rule"] = ("corr: every byte string over {00,01,02,03,ff} up to length %d through Write(b,8) and the reader, plus "
-                       "%d random op sequences (EBSP/plain/fixed writers, readers on writer output and on arbitrary bytes); "
-                       "distinct = distinct case lines; search: round trip, forbidden-pattern scan, independent naive escape, counters" % (exh, n))
+                       "%d random op sequences (EBSP/plain/fixed writers incl. Flush mid-stream and none at the end, readers on writer "
+                       "output and on arbitrary bytes incl. MoreRbspData/ReadRbspTrailingBits/ReadSigned), %d FixedSliceWriter cases "
+                       "(all Write* methods, capacity 0..200) and %d ByteWriter cases (limit 0..120); distinct = distinct case lines; "
+                       "search: round trip against an independent bit packer + naive escape, forbidden-pattern scan, byte AND bit counters "
+                       "after every value, MoreRbspData true before / false at the trailing bits and position-neutral, trailing bits "
+                       "accepted / malformed ones rejected, two's complement through ReadSigned, whole bytes out without Flush, "
+                       "FixedSliceWriter/ByteWriter prefix-at-capacity, stickiness and big-endian oracles" % (exh, n, n, n))
 
 
 def replay(ctx, path):
